@@ -289,7 +289,7 @@ def _run(ctx):
     opstat = collections.Counter()
     for b0 in range(0, len(flav), batch):
         fl = flav[b0:b0 + batch]
-        text, gens = G.make_module(ctx.rng, len(fl), 3, fl, prefix='G%d_' % b0)
+        text, gens = G.make_module(ctx.rng, len(fl), 3, fl, prefix='G%d_' % b0, open_ids={k['id'] for k in ctx.known if k.get('status') == 'known'})
         modname = 'c02_gen_%d_%d' % (ctx.seed, b0)
         path = os.path.join(GEN_DIR, modname + '.py')
         open(path, 'w').write(text)
